@@ -258,7 +258,7 @@ def make_groups(layout, edges, style):
             elif op == "arr_idx":
                 rhs = ("arr", C, ("x", 0), ("x", 1), ("x", 2))
             elif op == "arr_elem":
-                rhs = ("arr", ("xw", 2)) + tuple(P) + (x0,)
+                rhs = ("arr", ("xw", 3)) + tuple(P) + (x0,)
             elif op == "amem":
                 rhs = ("amem", C, 1)
             elif op == "if":
